@@ -92,6 +92,10 @@ def run_scenario(sc, base, fast=True, mode='each', real_passes=None, on_test=Non
         out = run_rules(rules, [c if c is not None else b'' for c in contents])
         rc = shim.TIMEOUT_EXIT if out == 'timeout' else out
         testlog.append((tuple(contents), rc, cwd, sorted(os.listdir(cwd))))
+        if out == 'norun':
+            if 'cvise-sanity-' in cwd:
+                return 1      # the fault is scripted for worker processes only
+            raise OSError(11, 'scripted: the test process could not be started')
         return rc
 
     if fast:
@@ -279,7 +283,7 @@ def coq_scenario(sc, perm, mode='each'):
         ps = mk_passes(specs)
         return '[' + '; '.join(coq_pass(p) for p in ps) + ']' if ps else '(@nil spass)'
 
-    start = 'None' if sc.get('start_with_key') is None else f'(Some {sc["start_with_key"]}%N)'
+    start = 'None' if sc.get('start_with_key') is None else f'(Some {sc["start_with_key"] * 1000}%N)'
     if mode == 'each':
         first, main, last = '(@nil spass)', plist(sc['passes']), '(@nil spass)'
     else:
